@@ -63,10 +63,17 @@ WHAT = {
                                 "t[i] raise ValueError",
     "c04_eq_broadcast": "__eq__ broadcasts (t[[0,0]] == t[0] is True) while __hash__ hashes the bytes: equal arrays with "
                         "different hashes",
+    "c04_npint_bare_float": "t[np.int32(i)] (any NumPy integer scalar other than np.int64, or a 0-d integer array) on a 1-column "
+                            "format returns a bare numpy.float64 instead of a Time: __getitem__ tests isinstance(item, (int, np.int_))",
+    "c04_gpsws_element_columns": "a single gps_ws epoch t[i] (shape (3,)) can be sliced / fancy-indexed along its columns: "
+                                 "t[i][0:1] is a 'Time' holding one bare number with the jd of the epoch",
+    "c04_insert_gpsws_other_fmt": "TimeArray.insert(a, pos, b) with a in gps_ws and b in another format inserts the converted "
+                                  "(week, seconds, day) columns as rows: garbage values, 3 rows per call, or ValueError",
     "c04_delattr_allowed": "__setattr__ is blocked but __delattr__ is not: `del t.fmt` succeeds and breaks the array",
 }
 
-FMT_TAG = {"jd": 0, "mjd": 1, "gps_ws": 2}
+FMT_TAG = {"jd": 0, "mjd": 1, "gps_ws": 2, "days": 3, "seconds": 4}
+DELTA_FMTS = ("days", "seconds")
 
 
 # ----------------------------------------------------------------------------- configurations
@@ -75,17 +82,32 @@ class Cfg:
 
     def __init__(self, n, fmt):
         self.n, self.fmt = n, fmt
+        self.delta = fmt in DELTA_FMTS          # TimeDelta arrays: same base class, no scale conversions registered
+        self.has_conv = not self.delta
+        self.inverse_ok = (not self.delta) and fmt != "gps_ws"     # insert of scale-1 objects into scale-0 arrays is modelled
+        self.der = "mjd"                        # the derived format read off every object
         if fmt == "gps_ws":
             self.scales = ("gps", "utc")
+        elif self.delta:
+            self.scales = ("utc", None)
+            self.der = "seconds" if fmt == "days" else "days"
         else:
             self.scales = ("utc", "tai")
+
+    def array_cls(self):
+        from midgard.data._time import TimeArray, TimeDeltaArray
+        return TimeDeltaArray if self.delta else TimeArray
 
     def key(self):
         return (self.n, self.fmt)
 
     def root(self):
-        from midgard.data.time import Time
+        from midgard.data.time import Time, TimeDelta
         n = self.n
+        if self.fmt == "days":
+            return TimeDelta(np.array([1.0 + 3 * k + (k + 1) / 8 for k in range(n)]), scale="utc", fmt="days")
+        if self.fmt == "seconds":
+            return TimeDelta(np.array([86400.0 * (1 + 3 * k) + 10800.0 * (k + 1) for k in range(n)]), scale="utc", fmt="seconds")
         if self.fmt == "jd":
             return Time(np.array([2458849.5 + 3 * k + (k + 1) / 8 for k in range(n)]), scale="utc", fmt="jd")
         if self.fmt == "mjd":
@@ -95,6 +117,10 @@ class Cfg:
 
     def how(self):
         n = self.n
+        if self.fmt == "days":
+            return f"o0 = TimeDelta(np.array([1.0 + 3*k + (k+1)/8 for k in range({n})]), scale='utc', fmt='days')"
+        if self.fmt == "seconds":
+            return f"o0 = TimeDelta(np.array([86400.0*(1 + 3*k) + 10800.0*(k+1) for k in range({n})]), scale='utc', fmt='seconds')"
         if self.fmt == "jd":
             return f"o0 = Time(np.array([2458849.5 + 3*k + (k+1)/8 for k in range({n})]), scale='utc', fmt='jd')"
         if self.fmt == "mjd":
@@ -211,7 +237,7 @@ def observe(o, cfg, tok, der=True):
     j1, j2 = jo(o.jd1), jo(o.jd2)
     if j1[0] != j2[0]:
         raise Mixed()
-    d = jo(o.mjd) if der else None
+    d = jo(getattr(o, getattr(cfg, "der", "mjd"))) if der else None
     return (bool(scalar), rows, jo(o.jd1), jo(o.jd2), int(len(o)), d, FMT_TAG[fmt], scale)
 
 
@@ -228,6 +254,8 @@ def oobs_term(ob):
 def obsres_term(r):
     if r[0] == "mixed":
         return "OMixed"
+    if r[0] == "nottime":
+        return "ONotTime"
     if r[0] == "err":
         return "OErr"
     if r[0] == "obj":
@@ -380,7 +408,7 @@ def apply_op(op, objs, cfg):
     if k == "subset":
         return o.subset(pyitem(op[2]), {})
     if k == "insert":
-        return TimeArray.insert(o, op[2], objs[op[3]], {})
+        return cfg.array_cls().insert(o, op[2], objs[op[3]], {})
     if k == "scale":
         return getattr(o, cfg.scales[op[2]])
     if k == "write":
@@ -393,8 +421,8 @@ class History:
     """Runs a history on midgard. objs[i] = object named i (0 = root)."""
 
     def __init__(self, cfg, tok):
-        from midgard.data._time import TimeArray
-        self.TimeArray = TimeArray
+        from midgard.data._time import TimeBase
+        self.TimeArray = TimeBase
         clear_caches()
         self.cfg, self.tok = cfg, tok
         root = cfg.root()
@@ -458,29 +486,40 @@ def build_tables(cfg, tok):
     (scale, jd pair) -> mjd; format after conversion."""
     clear_caches()
     try:
-        r0 = cfg.root()
-        o0 = observe(r0, cfg, tok)
-        r1 = getattr(r0, cfg.scales[1])
-        o1 = observe(r1, cfg, tok)
+        chain = [cfg.root()]
+        obs = [observe(chain[0], cfg, tok)]
+        if cfg.has_conv:
+            # root -> scale 1 (-> scale 0 -> scale 1 ... until the round trip reproduces itself: the conversions are not
+            # exact inverses of each other, inserts between the scales can pile them up)
+            for i in range(1, 8 if cfg.inverse_ok else 2):
+                nxt = getattr(chain[-1], cfg.scales[i % 2])
+                ob = observe(nxt, cfg, tok)
+                chain.append(nxt)
+                obs.append(ob)
+                if i >= 3 and ob[2:4] == obs[i - 2][2:4]:
+                    break
     except (Mixed, OutOfModel) as e:
-        raise TablesError(f"fresh root {cfg.how()} / its .{cfg.scales[1]}: {type(e).__name__} {e}")
+        raise TablesError(f"fresh root {cfg.how()} / its scale conversions: {type(e).__name__} {e}")
     finally:
         clear_caches()
-    vj, cv, dv = [], [], []
-    for ob in (o0, o1):
+    vj, cv, cvi, dv = {}, {}, {}, {}
+    for ob in obs:
         sc, rows, j1, j2, ln, d, f, s = ob
         if not (j1[0] == j2[0] == d[0] == "A" and len(rows) == len(j1[1]) == len(j2[1]) == len(d[1]) == cfg.n):
             raise TablesError(f"fresh root {cfg.how()} (scale tag {s}): observation {ob!r} is not an array of {cfg.n} "
                               "aligned epochs")
         for k in range(cfg.n):
-            vj.append(((s, f, (j1[1][k], j2[1][k])), rows[k]))
-            dv.append(((s, (j1[1][k], j2[1][k])), d[1][k]))
-    for k in range(cfg.n):
-        cv.append(((o0[2][1][k], o0[3][1][k]), (o1[2][1][k], o1[3][1][k])))
-    fmt_to = [(o0[6], o1[6])]
-    t = ("(mkT " + emit.lst(f"(({s}, {f}, ({a}, {b_})), {emit.lst(str(x) for x in row)})" for (s, f, (a, b_)), row in vj) + " "
-         + emit.lst(f"(({a}, {b_}), ({c}, {d_}))" for (a, b_), (c, d_) in cv) + " "
-         + emit.lst(f"(({s}, ({a}, {b_})), {v})" for (s, (a, b_)), v in dv) + " "
+            vj.setdefault((s, f, (j1[1][k], j2[1][k])), rows[k])
+            dv.setdefault((s, (j1[1][k], j2[1][k])), d[1][k])
+    for i in range(1, len(obs)):
+        tab = cv if i % 2 == 1 else cvi
+        for k in range(cfg.n):
+            tab.setdefault((obs[i - 1][2][1][k], obs[i - 1][3][1][k]), (obs[i][2][1][k], obs[i][3][1][k]))
+    fmt_to = [(obs[0][6], obs[1][6] if len(obs) > 1 else obs[0][6])]
+    pairs = lambda tab: emit.lst(f"(({a}, {b_}), ({c}, {d_}))" for (a, b_), (c, d_) in tab.items())
+    t = ("(mkT " + emit.lst(f"(({s}, {f}, ({a}, {b_})), {emit.lst(str(x) for x in row)})" for (s, f, (a, b_)), row in vj.items())
+         + " " + pairs(cv) + " " + pairs(cvi) + " "
+         + emit.lst(f"(({s}, ({a}, {b_})), {v})" for (s, (a, b_)), v in dv.items()) + " "
          + emit.lst(f"({a}, {b_})" for a, b_ in fmt_to) + " " + emit.b(cfg.scales == ("utc", "tai")) + ")")
     return t
 
@@ -494,11 +533,16 @@ def ops_for(k, summ, cfg, rich, nobjs):
     scalar, m, scale = summ
     ops = []
     if scalar:
-        ops += [("view", k), ("copy", k)]
-        if scale == 0:
+        # a single epoch: view / copy / scale work, every kind of indexing, iteration, subset, insert-into must raise
+        ops += [("view", k), ("copy", k), ("get", k, ("int", 0)), ("iter", k)]
+        if scale == 0 and cfg.has_conv:
             ops.append(("scale", k, 1))
         if rich:
-            ops += [("deepcopy", k), ("scale", k, scale), ("write", k, 1)]
+            ops += [("deepcopy", k), ("scale", k, scale), ("write", k, 1), ("subset", k, ("slice", 0, 1, 1)),
+                    ("insert", k, 0, k)]
+            if cfg.fmt != "gps_ws":
+                ops += [("get", k, ("slice", 0, 1, 1)), ("get", k, ("take", (0,))), ("get", k, ("mask", (True,))),
+                        ("gett", k, ("slice", 0, 1, 1))]
         return ops
     ops += [("get", k, ("int", 0)), ("get", k, ("int", -1)), ("get", k, ("slice", 1, None, 1)),
             ("get", k, ("slice", None, None, -1)), ("get", k, ("mask", alt_mask(m))),
@@ -506,7 +550,7 @@ def ops_for(k, summ, cfg, rich, nobjs):
             ("iter", k), ("view", k), ("copy", k), ("subset", k, ("mask", tuple(i > 0 or m == 1 for i in range(m)))),
             ("insert", k, 1 if m >= 1 else 0, 0 if scale == 0 else k)]
     if scale == 0:
-        ops.append(("scale", k, 1))
+        ops.append(("scale", k, 1 if cfg.has_conv else 0))
     else:
         ops.append(("insert", k, 1 if m >= 1 else 0, 0))      # insert the root (other scale) into a converted array
     ops.append(("write", k, 0))
@@ -518,12 +562,46 @@ def ops_for(k, summ, cfg, rich, nobjs):
     return ops
 
 
+def cross_b(h, cfg, k):
+    """names that can be inserted into array k although they are in the other scale (insert converts them): arrays, and
+    single epochs whose derived format is not served in array shape by the value-keyed cache (that combination gives
+    jd1 scalar / jd2 array inside the conversion: outside the model)"""
+    if not cfg.has_conv:
+        return []
+    sk = h.summary(k)[2]
+    if sk == 0 and not cfg.inverse_ok:
+        return []
+    out = []
+    for i in range(len(h.objs)):
+        sc_i, m_i, s_i = h.summary(i)
+        if s_i == sk:
+            continue
+        if sc_i:
+            try:
+                if np.ndim(getattr(h.objs[i], cfg.der)) != 0:
+                    continue
+            except Exception:
+                continue
+        out.append(i)
+    return out
+
+
 def child_ops(h, cfg, rich):
     n = len(h.objs)
     targets = [0] if n == 1 else [0, n - 1]
     ops = []
     for k in targets:
-        ops += ops_for(k, h.summary(k), cfg, rich, n)
+        summ = h.summary(k)
+        ops += ops_for(k, summ, cfg, rich, n)
+        if not summ[0]:
+            # the most recent array and the most recent single epoch of the other scale
+            cb = cross_b(h, cfg, k)
+            arrs = [i for i in cb if not h.summary(i)[0]]
+            els = [i for i in cb if h.summary(i)[0]]
+            for i in arrs[-1:] + els[-1:]:
+                op = ("insert", k, 1 if summ[1] >= 1 else 0, i)
+                if op not in ops:
+                    ops.append(op)
     return ops
 
 
@@ -545,15 +623,24 @@ def random_op(rng, h, cfg):
     k = rng.choice([0, n - 1, rng.randrange(n)])
     scalar, m, scale = h.summary(k)
     if scalar:
-        c = rng.choice(["view", "copy", "deepcopy", "scale", "scale", "write", "insb"])
+        c = rng.choice(["view", "copy", "deepcopy", "scale", "scale", "write", "insb", "insb", "idx0d"])
+        if c == "idx0d":
+            # indexing / iterating / subsetting a single epoch must raise (gps_ws: only the forms that do not select columns)
+            forms = [("get", k, ("int", rng.choice([0, -1, 1]))), ("iter", k), ("subset", k, ("slice", 0, 1, 1)),
+                     ("insert", k, 0, k)]
+            if h.birth[k][5] != FMT_TAG["gps_ws"]:
+                forms += [("get", k, ("slice", None, None, 1)), ("get", k, ("take", (0,))), ("get", k, ("mask", (True,))),
+                          ("gett", k, ("slice", 0, 1, 1)), ("subset", k, ("take", (0,)))]
+            return rng.choice(forms)
         if c == "scale":
-            return ("scale", k, rng.choice([scale, 1]) if scale == 0 else scale)
+            return ("scale", k, rng.choice([scale, 1]) if (scale == 0 and cfg.has_conv) else scale)
         if c == "write":
             return ("write", k, rng.choice([1, 2, 3, 5, 9, 12, 13]))
         if c == "insb":
             # insert this scalar into an array of the same scale / format
             cands = [i for i in range(n) if not h.summary(i)[0] and h.summary(i)[2] == scale
                      and h.birth[i][5] == h.birth[k][5]]
+            cands += [i for i in range(n) if not h.summary(i)[0] and k in cross_b(h, cfg, i)]
             if cands:
                 a = rng.choice(cands)
                 return ("insert", a, rng.randrange(-1, 2), k)
@@ -578,14 +665,12 @@ def random_op(rng, h, cfg):
         return ("subset", k, it)
     if c == "insert":
         cands = [i for i in range(n) if h.summary(i)[2] == scale and h.birth[i][5] == h.birth[k][5]]
-        if scale == 1:
-            # arrays of the root's scale: insert converts them
-            other = [i for i in range(n) if h.summary(i)[2] == 0 and not h.summary(i)[0]]
-            if other and rng.random() < 0.6:
-                cands = other
+        other = cross_b(h, cfg, k)          # objects of the other scale: insert converts them
+        if other and rng.random() < 0.6:
+            cands = other
         return ("insert", k, rng.randrange(-m - 1, m + 2), rng.choice(cands))
     if c == "scale":
-        return ("scale", k, rng.choice([scale, 1]) if scale == 0 else scale)
+        return ("scale", k, rng.choice([scale, 1]) if (scale == 0 and cfg.has_conv) else scale)
     if c == "write":
         return ("write", k, rng.choice([0, 1, 2, 2, 3, 4, 5, 7, 8, 9, 9, 10, 11, 12, 13, 14]))
     if c == "copy" and rng.random() < 0.5:
@@ -806,6 +891,68 @@ def eqhash_cases(ctx, rng):
     return cases, metas
 
 
+def index_type_cases(ctx):
+    """t[np.int32(i)], t[np.array(i)], ... against t[i] with the Python int, each on a fresh array"""
+    from midgard.data._time import TimeBase
+    cases, metas = [], []
+    kinds = [("np.int64", lambda i: np.int64(i)), ("np.int32", lambda i: np.int32(i)), ("np.int16", lambda i: np.int16(i)),
+             ("np.uint8", lambda i: np.uint8(i) if i >= 0 else None), ("np.intp", lambda i: np.intp(i)),
+             ("np.array(i)", lambda i: np.array(i)), ("np.array(i, dtype=np.int32)", lambda i: np.array(i, dtype=np.int32))]
+    for fmt in INDEX_FMTS:
+        for n in (1, 3):
+            for i in sorted({0, n - 1, -1, -n, n}):
+                for kname, mk in kinds:
+                    idx = mk(i)
+                    if idx is None:
+                        continue
+                    cfg = Cfg(n, fmt)
+                    tok = Tok()
+                    res = []
+                    for item in (int(i), idx):
+                        clear_caches()
+                        t = cfg.root()
+                        try:
+                            r = t[item]
+                        except Exception:
+                            res.append(("err",))
+                            continue
+                        if not isinstance(r, TimeBase):
+                            res.append(("nottime", f"{type(r).__name__} {r!r}"))
+                            continue
+                        try:
+                            res.append(("obj", observe(r, cfg, tok)))
+                        except Exception as e:
+                            res.append(("nottime", f"unobservable {type(e).__name__}: {e}"))
+                    k = 0 if kname in ("np.int64", "np.intp") else 1
+                    cases.append(f"({k}, {obsres_term(res[0])}, {obsres_term(res[1])})")
+                    metas.append(dict(kind="index_type", root=cfg.how().replace("o0 =", "t ="), index=f"{kname} with i = {i}",
+                                      with_python_int=res[0][0], with_numpy_index=res[1][0] if res[1][0] != "nottime" else res[1][1]))
+                    ctx.case(("IDX", fmt, n, i, kname), nontrivial=True)
+                    ctx.count(f"index-type:{kname}")
+    # a single gps_ws epoch (shape (3,)) indexed along its columns must raise like a 0-d element of a one-column format
+    for src, f in (("t[1][0:1]", lambda t: t[1][0:1]), ("t[1][[0]]", lambda t: t[1][[0]]),
+                   ("t[1][np.array([True, False, True])]", lambda t: t[1][np.array([True, False, True])]),
+                   ("t[1][::-1]", lambda t: t[1][::-1])):
+        cfg = Cfg(3, "gps_ws")
+        clear_caches()
+        t = cfg.root()
+        try:
+            r = f(t)
+            res = ("nottime", f"{type(r).__name__} of shape {np.shape(r)}: {np.asarray(r).tolist()!r}")
+        except Exception:
+            res = ("err",)
+        cases.append(f"(2, OErr, {obsres_term(res)})")
+        metas.append(dict(kind="element_columns", root=cfg.how().replace("o0 =", "t ="), expression=src,
+                          expected="an exception (IndexError for the one-column formats)",
+                          observed="raised" if res[0] == "err" else res[1]))
+        ctx.case(("IDX0D", src), nontrivial=True)
+    clear_caches()
+    return cases, metas
+
+
+INDEX_FMTS = ("jd", "mjd", "gps_ws", "days")
+
+
 class AnyScale:
     """observation context for the insert oracle: four scales, no root"""
     scales = ("utc", "tai", "gps", "tt")
@@ -821,13 +968,23 @@ def insert_cases(ctx):
 
     def make(scale, fmt, n, start):
         mjd = start + np.arange(n) * 1.25 + 0.125
+        if fmt == "gps_ws":
+            x = Time(mjd, scale="gps", fmt="mjd")
+            x = type(x).from_jds(x.jd1, x.jd2, "gps_ws")
+            clear_caches()
+            return x
         return Time(mjd if fmt == "mjd" else mjd + 2_400_000.5, scale=scale, fmt=fmt)
 
     sizes = ((1, 1), (3, 2), (4, 1)) if ctx.quick() else ((1, 1), (3, 2), (4, 1), (6, 3), (2, 6))
-    for sa in cfg.scales:
-        for sb in cfg.scales:
-            for fa in ("jd", "mjd"):
-                for fb in ("jd", "mjd"):
+    combos = [(sa, sb, fa, fb) for sa in cfg.scales for sb in cfg.scales for fa in ("jd", "mjd") for fb in ("jd", "mjd")]
+    # the three-column format (gps scale only) as target and as inserted array
+    combos += [("gps", sb, "gps_ws", fb) for sb in ("gps", "utc", "tai") for fb in ("jd", "mjd")]
+    combos += [("gps", "gps", "gps_ws", "gps_ws")]
+    combos += [(sa, "gps", fa, "gps_ws") for sa in ("gps", "utc", "tt") for fa in ("jd", "mjd")]
+    for sa, sb, fa, fb in combos:
+        if True:
+            if True:
+                if True:
                     for na, nb in sizes:
                         for pos in sorted({0, na // 2, na, -1, na + 1}):
                             for b_elem in ((False, True) if (nb == 1 and pos == 0) else (False,)):
@@ -865,7 +1022,8 @@ def insert_cases(ctx):
                                     metas.append(dict(kind="insert", how=how, error=f"{type(e).__name__}: {e}"))
                                     cases.append(None)
                                     continue
-                                cases.append(f"({oobs_term(oa)}, {oobs_term(ob)}, {emit.z(pos)}, {obsres_term(res)})")
+                                cls = fa == "gps_ws" and fb != "gps_ws"
+                                cases.append(f"({emit.b(cls)}, {oobs_term(oa)}, {oobs_term(ob)}, {emit.z(pos)}, {obsres_term(res)})")
                                 def show(o):
                                     return dict(val=[[tok.vals[t - 1] for t in r] for r in o[1]],
                                                 jd1=[tok.vals[t - 1] for t in (o[2][1] if o[2][0] == "A" else (o[2][1],))],
@@ -909,17 +1067,19 @@ def write_cases(ctx):
     leave the bits of the object and of the root it came from unchanged"""
     from midgard.data._time import TimeArray
     cases, metas = [], []
-    for fmt in ("jd", "mjd", "gps_ws"):
+    for fmt in ("jd", "mjd", "gps_ws", "days"):
         for target, src, make in WRITE_TARGETS:
+            if "other scale" in src and not Cfg(3, fmt).has_conv:
+                continue
             for w in sorted(WRITE_SRC):
                 cfg = Cfg(3, fmt)
                 tok = Tok()
                 h = History(cfg, tok)
                 t = h.objs[0]
-                rep = dict(kind="write_attempt", root=cfg.how().replace("o0 =", "t ="), target=src.replace("<other scale>", cfg.scales[1]),
+                rep = dict(kind="write_attempt", root=cfg.how().replace("o0 =", "t ="), target=src.replace("<other scale>", cfg.scales[1] or "-"),
                            attempt=WRITE_SRC[w].replace("o", "x", 1) if WRITE_SRC[w].startswith("o") else WRITE_SRC[w])
                 try:
-                    o = TimeArray.insert(t, 1, t, {}) if make is None else make(t, cfg)
+                    o = cfg.array_cls().insert(t, 1, t, {}) if make is None else make(t, cfg)
                     before = [observe(x, cfg, tok, der=False) for x in (t, o)]
                     hash_before = hash(o)
                 except Exception as e:
@@ -950,8 +1110,8 @@ def plan(ctx):
     trees, rnd = [], []
     lengths = [1, 2, 3, 4, 5, 6]
     if ctx.quick():
-        deep = {(1, "jd"), (3, "jd"), (2, "gps_ws")}
-        for fmt in ("jd", "gps_ws"):
+        deep = {(1, "jd"), (3, "jd"), (2, "gps_ws"), (2, "days")}
+        for fmt in ("jd", "gps_ws", "days"):
             for n in lengths:
                 cfg = Cfg(n, fmt)
                 d = 3 if (n, fmt) in deep else 2
@@ -960,7 +1120,7 @@ def plan(ctx):
                     trees.append((n, fmt, op, 2 if rich_first else d, 1))
         n_rnd, ln = 400, 30
     else:
-        for fmt in ("jd", "gps_ws"):
+        for fmt in ("jd", "gps_ws", "days"):
             for n in lengths:
                 cfg = Cfg(n, fmt)
                 d = 4 if (n, fmt) in {(1, "jd"), (2, "jd"), (3, "gps_ws")} else 3
@@ -969,7 +1129,7 @@ def plan(ctx):
                     trees.append((n, fmt, op, 3 if rich_first else d, 1))
         n_rnd, ln = 4000, 30
     for i in range(n_rnd):
-        rnd.append((ctx.rng.choice(lengths), ctx.rng.choice(["jd", "mjd", "gps_ws", "jd", "gps_ws"]),
+        rnd.append((ctx.rng.choice(lengths), ctx.rng.choice(["jd", "mjd", "gps_ws", "jd", "gps_ws", "days", "seconds"]),
                     ctx.rng.randrange(1 << 60), ctx.rng.choice([ln, ln, 12, 6])))
     return trees, rnd
 
@@ -1177,8 +1337,10 @@ def run(ctx):
     im = [m for c, m in zip(ic, im) if c is not None]
     ic = [c for c in ic if c is not None]
     vi = emit.flatten_verdicts(ctx.coq_cases(emit.shard_terms("check_insert", ic, 200), REQ), len(ic))
+    xc, xm = index_type_cases(ctx)
+    vx = emit.flatten_verdicts(ctx.coq_cases(emit.shard_terms("check_idx", xc, 400), REQ), len(xc))
     for name, flat, meta, fid in (("eqhash", ve, em, "c04_eq_broadcast"), ("write", vw, wm, "c04_delattr_allowed"),
-                                  ("insert", vi, im, None)):
+                                  ("insert", vi, im, "c04_insert_gpsws_other_fmt"), ("index-type", vx, xm, "c04_npint_bare_float")):
         if flat is None:
             ctx.violation({"broken": f"{name} shard did not evaluate", "errors": [e[1][-1500:] for e in ctx.last_coq_errors[:2]]},
                           what="correspondence (model evaluation) failed", found=False)
@@ -1192,6 +1354,10 @@ def run(ctx):
                 n_rep += 1
                 if n_rep > 10:          # the first ten replay files are enough, the rest is in the histogram
                     continue
+            if vd == 2 and rep.get("kind") == "element_columns":
+                ctx.count("quirk:c04_gpsws_element_columns")
+                ctx.finding("c04_gpsws_element_columns", WHAT["c04_gpsws_element_columns"], rep)
+                continue
             if vd == 2 and fid:
                 ctx.count(f"quirk:{fid}")
                 ctx.finding(fid, WHAT[fid], rep)
